@@ -11,7 +11,7 @@ class ProgramError(Exception):
     """The program itself is malformed (harness bug, never a verdict)."""
 
 
-MESH_LEVEL = ("geometry", "add", "delete", "delete_sub", "merge", "default_patch", "modify_patch", "setting")
+MESH_LEVEL = ("geometry", "add_geometry", "add", "delete", "delete_sub", "merge", "default_patch", "modify_patch", "setting")
 
 
 class Interp:
@@ -378,6 +378,10 @@ class Interp:
 
     # mesh-level
     def op_geometry(self, op) -> None:
+        self.mesh.add_geometry({op["name"]: list(op["props"])})
+
+    def op_add_geometry(self, op) -> None:
+        """a geometry declared in the middle of a history (same call; named apart so that traces show it)"""
         self.mesh.add_geometry({op["name"]: list(op["props"])})
 
     def op_add(self, op) -> None:
